@@ -264,6 +264,10 @@ def gen_cases(rec, rng, tier):
         RG = cfgg.unit_cycle_grammar(rng)
         yield {'cls': 'unit_cycles', 'ref': RG, 'n': 3}
         yield {'cls': 'unit_cycles_renamed', 'ref': cfgg.random_var_renaming(rng, RG), 'n': 3}
+    # long right-hand sides (the splitting phase needs 11 and more helper variables for ONE rule), below and above 26 variables
+    for (L_, extra) in (((13, 0), (14, 19), (15, 22), (36, 0), (37, 0), (38, 2), (14, 25), (24, 0)) if thorough else ((14, 19), (37, 0), (13, 0), (15, 22))):
+        if rec.shard % 4 == (L_ + extra) % 4:
+            yield {'cls': 'long_right_hand_side', 'ref': cfgg.long_rhs_grammar(rng, L_, extra)[0], 'n': L_ + 1}
     for nv in ((23, 25, 26, 27, 30) if thorough else (24, 26, 28)):
         if rec.shard % 4 == (nv % 4):
             yield {'cls': 'many_variables_%d' % nv, 'ref': cfgg.many_variables(rng, nv), 'n': 4}
